@@ -1193,7 +1193,7 @@ impl InstrFormat for TimelineFormat06 {
         }
 
         let opcode = f.read_u16()?;
-        let size = f.read_i16()? as usize;
+        let size = f.read_u16()? as usize;  // (written as u16; sign-extending would turn 0x8000.. into ~2^64)
 
         let args_size = size.checked_sub(self.instr_header_size()).ok_or_else(|| {
             emitter.as_sized().emit(error!("bad instruction size ({} < {})", size, self.instr_header_size()))
